@@ -44,8 +44,12 @@ package unite
 //@ ghost var gJS int
 //@ ghost var gTO int
 //@ ghost var gNC bool
+// arrays of the input slices received so far: they belong to the producer
+//@ ghost var gInArr set
 
 //@ event recv dsc.opts.Input (item, opened)
+//@   assume-env [C03 C11] input-slices-are-the-producers-own-memory: item.arr != dsc.join.arr
+//@   effect gInArr := ite(item.arr != 0, store(gInArr, item.arr, true), gInArr)
 //@   effect gIn := ite(opened, seqappend(gIn, gInN, item), gIn)
 //@   effect gInN := ite(opened, gInN + len(item), gInN)
 //@   effect gBprev := ite(opened, gB, gBprev)
@@ -85,6 +89,7 @@ package unite
 // Every write into a backing array (append in place, element assignment, copy).
 //@ event heapwrite (r)
 //@   requires [C08 C20] never-writes-a-delivered-array: !in(gOwned, r) && r != gLent
+//@   requires [C03 C11] never-writes-into-an-input-slice: !in(gInArr, r)
 
 //@ event call time.NewTicker (d)
 //@   requires [C10] ticker-period-is-interrupt-interval: d == dsc.interruptInterval
@@ -95,6 +100,8 @@ package unite
 //@   [* C03 C11] buffer-never-above-join-size: len(dsc.join) <= gJS
 //@   [*] dsc.join.arr != 0 && allocated(dsc.join.arr)
 //@   [*] dsc.interruptInterval >= 0
+//@   [C03 C11] the-buffer-is-the-disciplines-own-memory: !in(gInArr, dsc.join.arr)
+//@   [C03 C11] input-arrays-are-allocated: forall r :: in(gInArr, r) ==> allocated(r)
 
 // Between two inputs: everything received is either delivered or in the buffer, and the
 // buffer ends at the last input boundary.
@@ -219,7 +226,7 @@ package unite
 //@   requires [*] dsc.interruptInterval > 0
 //@   requires [C09] gTO > 0
 //@   requires [C03 C09 C11] !gClosed
-//@   modifies dsc.join, elems(dsc.join), dsc.passAt, gClock, gIn, gInN, gB, gBprev, gClosed, gOutN, gLastDeliv, gLent, gOwned, gTick
+//@   modifies dsc.join, elems(dsc.join), dsc.passAt, gClock, gIn, gInN, gInArr, gB, gBprev, gClosed, gOutN, gLastDeliv, gLent, gOwned, gTick
 //@   ensures [C03] gClosed && gOutN == gInN
 //@   loop 0
 //@     invariant [C10] a-tick-after-the-timeout-flushes-the-buffer: gTick ==> (gClock - dsc.passAt >= gTO ==> len(dsc.join) == 0)
@@ -230,7 +237,7 @@ package unite
 //@   requires [*] INV(dsc)
 //@   requires [C03 C09 C11] !gClosed
 //@   requires [C09] gTO <= 0
-//@   modifies dsc.join, elems(dsc.join), dsc.passAt, gClock, gIn, gInN, gB, gBprev, gClosed, gOutN, gLastDeliv, gLent, gOwned, gTick
+//@   modifies dsc.join, elems(dsc.join), dsc.passAt, gClock, gIn, gInN, gInArr, gB, gBprev, gClosed, gOutN, gLastDeliv, gLent, gOwned, gTick
 //@   ensures [C03] gClosed && gOutN == gInN
 //@   loop 0
 //@     invariant [*] INV(dsc)
@@ -241,7 +248,7 @@ package unite
 //@   requires [C10] !gTick
 //@   requires [C03 C09 C11] !gClosed
 //@   requires [C09] (dsc.interruptInterval == 0) <==> (gTO <= 0)
-//@   modifies dsc.join, elems(dsc.join), dsc.passAt, gClock, gIn, gInN, gB, gBprev, gClosed, gOutN, gLastDeliv, gLent, gOwned, gTick
+//@   modifies dsc.join, elems(dsc.join), dsc.passAt, gClock, gIn, gInN, gInArr, gB, gBprev, gClosed, gOutN, gLastDeliv, gLent, gOwned, gTick
 
 //@ func Opts.isValid
 //@   ensures [*] (result == nil) <==> (opts.Input != nil && opts.JoinSize != 0)
@@ -253,7 +260,7 @@ package unite
 // The ghost state of a discipline that does not exist yet is empty. JoinSize and
 // cap(Input)+1 are sizes the runtime can allocate (otherwise make panics in New).
 //@ func New
-//@   requires [*] ghost-initial-state: !gTick && gJS == opts.JoinSize && gTO == opts.Timeout && (opts.NoCopy <==> gNC) && gInN == 0 && gOutN == 0 && gB == 0 && gBprev == 0 && !gClosed && gLent == 0 && gLastDeliv == gClock && (forall r :: !in(gOwned, r))
+//@   requires [*] ghost-initial-state: !gTick && gJS == opts.JoinSize && gTO == opts.Timeout && (opts.NoCopy <==> gNC) && gInN == 0 && gOutN == 0 && gB == 0 && gBprev == 0 && !gClosed && gLent == 0 && gLastDeliv == gClock && (forall r :: !in(gOwned, r)) && (forall r :: !in(gInArr, r))
 //@   requires [*] allocatable: cap(opts.Input) + 1 < two63 && opts.JoinSize < two63
 //@   modifies gClock
 //@   ensures [*] result1 == nil ==> result0 != nil
